@@ -66,10 +66,15 @@ def parse_one(text, validate, comments, kind, fetch='text'):
             return 'cssText is None', time.process_time() - t0
     except Timeout:
         return 'no result after %d s of CPU' % LIMIT_S, LIMIT_S
-    except (UnicodeDecodeError, UnicodeEncodeError, LookupError) as e:       # (LookupError: unknown encoding label)
+    except (UnicodeError, LookupError) as e:       # (LookupError: unknown encoding label or no text encoding)
         if isinstance(text, bytes):
             return '', time.process_time() - t0
         return 'raised %s' % type(e).__name__, time.process_time() - t0
+    except ValueError as e:
+        # byte input labelled with the css codec itself: refused by the codec, a decoding error
+        if isinstance(text, bytes) and 'css not allowed' in str(e):
+            return '', time.process_time() - t0
+        return 'raised %s: %s' % (type(e).__name__, str(e)[:80]), time.process_time() - t0
     except RecursionError:
         return 'raised RecursionError', time.process_time() - t0
     except Exception as e:
@@ -199,6 +204,7 @@ def gen_cases(tier, seed):
     import pkgutil
     names = sorted(set(encodings.aliases.aliases) | set(encodings.aliases.aliases.values())
                    | set(m.name for m in pkgutil.iter_modules(encodings.__path__)))
+    names += ['css', 'CSS', 'Css']          # (the codec this package registers itself)
     for nm in names:
         cases.append(('charset', '@charset "%s"; a{content:"\xe9\u4e2d"}' % nm.replace('_', rnd.choice('_-')), rnd.random() < 0.5, True,
                       'sheet', 'text'))
@@ -211,7 +217,8 @@ def gen_cases(tier, seed):
         cases.append(('fixed', t, True, True, 'sheet', 'text'))
         cases.append(('fixed', t, False, False, 'sheet', 'none'))
     byt = [('bytes', b) for b in [b'\xff\xfe', b'\xef\xbb\xbf@charset "', b'@charset "x', b'@charset "utf-16";a', b'\x00\x00\xfe\xff',
-                                  b'a{content:"\xff"}', b'@charset "ascii";\xe9', b'\xff' * 10, b'@charset "";']]
+                                  b'a{content:"\xff"}', b'@charset "ascii";\xe9', b'\xff' * 10, b'@charset "";', b'@charset "css";a{}',
+                                  b'@charset "CSS";a{}', b'\xef\xbb\xbf@charset "cSs";a{}', b'@charset "rot13";a{}', b'@charset "idna";a{}']]
     for k, b in byt:
         cases.append((k, b, False, True, 'sheet', 'text'))
     return cases
